@@ -369,6 +369,24 @@ def s4(chk: Check, proj: Project, w) -> None:
             continue
         at = cond_atoms(enclosing_stmt(c))
         ok = any(f"{sv} is None" in t and not pol for t, pol in at)
+        # the callee raises on a condition over ITS parameter; "a script was found" says nothing about that parameter
+        # (cache keys are built by joining the fields with ':' and a field taken from the URL may contain ':'), so the
+        # request value bound to it needs its own 404 exit: a membership test in the same table
+        gp = params(tg[1])
+        for r in raises:
+            for t, pol in cond_atoms(r):
+                mm_ = re.match(r"^(\w+) (not in|in) (\w+)$", t)
+                if not mm_ or mm_.group(1) not in gp:
+                    continue
+                i = gp.index(mm_.group(1))
+                actual = norm(c.args[i]) if i < len(c.args) else None
+                if actual is None or actual not in params(f):
+                    continue
+                tbl = mm_.group(3)
+                guarded = any(((tt == f"{actual} not in {tbl}" and not pl) or (tt == f"{actual} in {tbl}" and pl)) for tt, pl in at)
+                chk.ob("S4", f"dependencies:cached_script_view:{actual}-validated-before-{tg[1].name}", dm.loc(c), guarded,
+                       f"`{actual}` is tested against {tbl} (404 exit) before {tg[1].name}() is called" if guarded else
+                       f"{tg[1].name}() raises when `{actual} {mm_.group(2)} {tbl}`, and no 404 exit tests the request's `{actual}` against {tbl} first: the crafted kind `js:<input_hash>` (the URL converter accepts ':') builds exactly the key of the variables script, the lookup hits, and the view answers 500")
         chk.ob("S4", f"dependencies:cached_script_view:{tg[1].name}-after-404-exits", dm.loc(c), ok,
                f"{tg[1].name}() (which can raise {norm(raises[0].exc.func) if isinstance(raises[0].exc, ast.Call) else '?'}) runs only after both lookups succeeded" if ok else
                f"{tg[1].name}() can raise on the request's script kind and is called before the 404 exits: an unknown kind for a known component answers 500")
